@@ -48,11 +48,11 @@ COQ_FILES = ["theories/C18/Props.v", "theories/C18/Link.v", "theories/C18/Proofs
              "theories/C18/ProofsAO.v", "theories/C18/ProofsPool.v", "theories/C18/ProofsRM.v", "theories/C18/ProofsTL.v"]
 COQ_TARGETS = ["theories/C18/Props.v", "theories/C18/Link.v", "theories/C18/Exec.v"]
 
-QUICK_N = 132
+QUICK_N = 330
 THOROUGH_N = 1650
-SEARCH_N = 132
-SHARD = 34
-DRIVER_TIMEOUT = 900
+SEARCH_N = 220
+SHARD = 42
+DRIVER_TIMEOUT = 300
 RULE = ("per primitive (SingleFlight, LockedCalls, Limit, RefResource, OnceGuard, SpinLock, DoneChan, Pool, "
         "ResourceManager, TimeoutLimit, Barrier; round robin) 2-6 goroutines with scripted calls (keys 1-3, fn callbacks "
         "blocking on gates) under a forced schedule of 10-40 steps (start a call / open a gate / advance the virtual "
@@ -218,8 +218,8 @@ def _gen_pool(rng, tier):
         blocked = t
 
     for _ in range(rng.randint(10, 36)):
-        if maxage and rng.random() < 0.22:
-            d = rng.choice([3, 8, 12, 30])
+        if maxage and rng.random() < 0.3:
+            d = rng.choice([3, 8, 12, 30, 40])
             sched.append({"k": "a", "v": d})
             now += d
             continue
@@ -242,11 +242,21 @@ def _gen_pool(rng, tier):
                 b = blocked
                 blocked = None
                 do_get(b)
+            elif maxage and rng.random() < 0.4:
+                d = maxage + rng.randint(1, 20)
+                sched.append({"k": "a", "v": d})
+                now += d
     return {"prim": "pool", "n": n, "m": maxage, "scripts": scripts, "sched": sched}
 
 
 def _gen_tl(rng, tier):
-    kind = rng.randrange(4)
+    kind = rng.randrange(5)
+    if kind == 4:     # signalled while the slot is still taken: keep waiting with the remaining time; give up only
+                      # when the (virtual) time spent reaches the timeout
+        a1 = rng.choice([10, 30, 300])
+        a2 = rng.choice([1000, 3990])
+        return {"prim": "tl", "n": 1, "m": 0, "scripts": [[_op(1), _op(3), _op(3), _op(2)], [_op(0, 4000)]],
+                "sched": [_t(0), _t(1), {"k": "a", "v": a1}, _t(0), {"k": "a", "v": a2}, _t(0), _t(0)]}
     if kind == 0:     # timer path: the limit stays full, the borrow gives up after its (real) timeout
         to = rng.choice([10, 15, 25])
         return {"prim": "tl", "n": 1, "m": 0, "scripts": [[_op(1), _op(2)], [_op(0, to)]],
@@ -273,7 +283,39 @@ def _gen_tl(rng, tier):
             "sched": [_t(0)] * 5}
 
 
+def _gen_free(rng, prim):
+    """no forced schedule: goroutines race freely (history checked against the contract only)"""
+    g = rng.randint(2, 8)
+    nkeys = rng.choice([1, 1, 2])
+    scripts = [[] for _ in range(g)]
+    sched = []
+    if prim == "pool":
+        for t in range(g):
+            scripts[t] = [_op(rng.choice([0, 0, 1])) for _ in range(rng.randint(2, 8))]
+        maxage = rng.choice([0, 1, 2, 5])
+        sched = [{"k": "a", "v": rng.choice([1, 1, 2, 4])} for _ in range(rng.randint(0, 12))] if maxage else []
+        return {"prim": "pool", "n": rng.randint(1, 3), "m": maxage, "scripts": scripts, "sched": sched, "free": True,
+                "seed": rng.randrange(1 << 30)}
+    gates = []
+    for t in range(g):
+        for i in range(rng.randint(1, 6)):
+            gate = 0
+            if rng.random() < 0.25:
+                gate = len(gates) + 1
+                gates.append(gate)
+            key = 0 if prim == "bar" else rng.randint(1, nkeys)
+            if prim == "rm":
+                scripts[t].append(_op(0, key, gate, 1 if rng.random() < 0.2 else 0))
+            else:
+                scripts[t].append(_op(rng.choice([0, 0, 1]) if prim == "sf" else 0, key, gate, 100 * (t + 1) + i + 1))
+    rng.shuffle(gates)
+    sched = [{"k": "o", "v": gt} for gt in gates]
+    return {"prim": prim, "n": 0, "m": 0, "scripts": scripts, "sched": sched, "free": True, "seed": rng.randrange(1 << 30)}
+
+
 def _gen_one(rng, prim, tier):
+    if prim in ("sf", "lc", "bar", "rm", "pool") and rng.random() < 0.3:
+        return _gen_free(rng, prim)
     if prim in ("sf", "lc", "bar", "rm"):
         return _gen_flight(rng, prim, tier)
     if prim == "pool":
@@ -302,6 +344,8 @@ def _directed():
                 "sched": [_t(0), _t(1), _t(0), {"k": "a", "v": 5}, _t(1), {"k": "a", "v": 8}, _t(0), _t(1)]})
     out.append({"prim": "ref", "n": 0, "m": 0, "scripts": [[_op(0), _op(1), _op(0), _op(1)], [_op(0), _op(1), _op(1)]],
                 "sched": [_t(0), _t(1), _t(0), _t(1), _t(0), _t(1), _t(0)]})
+    out.append({"prim": "tl", "n": 1, "m": 0, "scripts": [[_op(1), _op(3), _op(3), _op(2)], [_op(0, 4000)]],
+                "sched": [_t(0), _t(1), {"k": "a", "v": 30}, _t(0), {"k": "a", "v": 3980}, _t(0), _t(0)]})
     out.append({"prim": "rm", "n": 0, "m": 0,
                 "scripts": [[_op(0, 1, 1, 0), _op(0, 1, 0, 0)], [_op(0, 1, 0, 0)], [_op(0, 2, 0, 1), _op(0, 2, 0, 0)], [_op(1)]],
                 "sched": [_t(0), _t(1), _t(2), g1, _t(0), _t(2), _t(3)]})
@@ -363,7 +407,7 @@ def encode(case, obs):
         if k == 0:
             seen[t] = seen.get(t, 0) + 1
         hist.append("mkev %s %s %s %s %s %s" % (_n(t), _KIND[k], _n(op), _n(a), _n(b), _n(c)))
-    return "mkcase %s %s %s %s %s %s %s" % (cnat(PRIM_NO[prim]), _n(case["n"]), _n(case["m"]), clist(scripts),
+    return "mkcase %s %s %s %s %s %s %s" % (cnat(PRIM_NO[prim] + (100 if case.get("free") else 0)), _n(case["n"]), _n(case["m"]), clist(scripts),
                                            clist(sched), clist(results), clist(hist))
 
 
@@ -386,6 +430,8 @@ def nontrivial(case, obs):
 
 def bucket(case, obs):
     out = ["prim:" + case["prim"], "threads=%d" % len(case["scripts"])]
+    if case.get("free"):
+        out.append("free-running")
     if _overlap(obs):
         out.append("overlap")
     if obs.get("timeouts"):
